@@ -7,6 +7,7 @@ import (
 	"strings"
 
 	"google.golang.org/protobuf/proto"
+	"google.golang.org/protobuf/reflect/protoreflect"
 )
 
 // NilSite is a place in a generated struct where a nil can stand for an empty
@@ -222,6 +223,126 @@ func typedNil(v reflect.Value, n *int, depth int) {
 		case fv.Kind() == reflect.Slice && isMsgPtr(fv.Type().Elem()):
 			for j := 0; j < fv.Len(); j++ {
 				typedNil(fv.Index(j), n, depth+1)
+			}
+		}
+	}
+}
+
+// NilEmptyMessages replaces every EMPTY message held as a list element or as a
+// map value (at any depth of generated structs) by a nil pointer: the message
+// value stays the same (nil reads as an empty message), its Go representation
+// is the one a hand-written literal such as map[string]*T{"k": nil} has.
+func NilEmptyMessages(p proto.Message) int {
+	n := 0
+	nilEmpty(reflect.ValueOf(p), &n, 0)
+	return n
+}
+
+func emptyMsg(v reflect.Value) bool {
+	m, ok := v.Interface().(proto.Message)
+	if !ok {
+		return false
+	}
+	r := Impl(m.ProtoReflect())
+	empty := true
+	r.Range(func(protoreflect.FieldDescriptor, protoreflect.Value) bool { empty = false; return false })
+	return empty && len(r.GetUnknown()) == 0
+}
+
+func nilEmpty(v reflect.Value, n *int, depth int) {
+	if depth > 6 || v.Kind() != reflect.Ptr || v.IsNil() || TypeOfGo(v.Type()) == nil {
+		return
+	}
+	s := v.Elem()
+	st := s.Type()
+	for i := 0; i < st.NumField(); i++ {
+		if st.Field(i).PkgPath != "" {
+			continue
+		}
+		fv := s.Field(i)
+		switch {
+		case fv.Kind() == reflect.Slice && isMsgPtr(fv.Type().Elem()):
+			for j := 0; j < fv.Len(); j++ {
+				if el := fv.Index(j); !el.IsNil() {
+					if emptyMsg(el) {
+						el.Set(reflect.Zero(el.Type()))
+						*n++
+					} else {
+						nilEmpty(el, n, depth+1)
+					}
+				}
+			}
+		case fv.Kind() == reflect.Map && isMsgPtr(fv.Type().Elem()):
+			for _, k := range fv.MapKeys() {
+				if mv := fv.MapIndex(k); !mv.IsNil() {
+					if emptyMsg(mv) {
+						fv.SetMapIndex(k, reflect.Zero(fv.Type().Elem()))
+						*n++
+					} else {
+						nilEmpty(mv, n, depth+1)
+					}
+				}
+			}
+		case isMsgPtr(fv.Type()):
+			nilEmpty(fv, n, depth+1)
+		case fv.Kind() == reflect.Interface && !fv.IsNil():
+			if w := fv.Elem(); w.Kind() == reflect.Ptr && !w.IsNil() && w.Elem().Kind() == reflect.Struct && w.Elem().NumField() == 1 && isMsgPtr(w.Elem().Field(0).Type()) {
+				nilEmpty(w.Elem().Field(0), n, depth+1)
+			}
+		}
+	}
+}
+
+// AddStaleCapacity re-allocates every list of the generated struct (at any
+// depth) with spare capacity that holds STALE content - copies of the list's own
+// first elements - beyond its length, as plain re-slicing (m.List = m.List[:n])
+// leaves behind. The message value is unchanged.
+func AddStaleCapacity(p proto.Message) int {
+	n := 0
+	staleCap(reflect.ValueOf(p), &n, 0)
+	return n
+}
+
+func staleCap(v reflect.Value, n *int, depth int) {
+	if depth > 6 || v.Kind() != reflect.Ptr || v.IsNil() || TypeOfGo(v.Type()) == nil {
+		return
+	}
+	s := v.Elem()
+	st := s.Type()
+	for i := 0; i < st.NumField(); i++ {
+		if st.Field(i).PkgPath != "" {
+			continue
+		}
+		fv := s.Field(i)
+		switch {
+		case fv.Kind() == reflect.Slice && fv.Type() != bytesType && fv.Len() > 0:
+			l := fv.Len()
+			ns := reflect.MakeSlice(fv.Type(), l+3, l+3)
+			reflect.Copy(ns, fv)
+			for k := 0; k < 3; k++ {
+				src := fv.Index(k % l)
+				if isMsgPtr(fv.Type().Elem()) && !src.IsNil() {
+					ns.Index(l + k).Set(reflect.ValueOf(proto.Clone(src.Interface().(proto.Message))))
+				} else {
+					ns.Index(l + k).Set(src)
+				}
+			}
+			fv.Set(ns.Slice(0, l))
+			*n++
+			if isMsgPtr(fv.Type().Elem()) {
+				for j := 0; j < l; j++ {
+					staleCap(fv.Index(j), n, depth+1)
+				}
+			}
+		case fv.Kind() == reflect.Map && isMsgPtr(fv.Type().Elem()):
+			for _, k := range fv.MapKeys() {
+				staleCap(fv.MapIndex(k), n, depth+1)
+			}
+		case isMsgPtr(fv.Type()):
+			staleCap(fv, n, depth+1)
+		case fv.Kind() == reflect.Interface && !fv.IsNil():
+			if w := fv.Elem(); w.Kind() == reflect.Ptr && !w.IsNil() && w.Elem().Kind() == reflect.Struct && w.Elem().NumField() == 1 && isMsgPtr(w.Elem().Field(0).Type()) {
+				staleCap(w.Elem().Field(0), n, depth+1)
 			}
 		}
 	}
